@@ -104,6 +104,7 @@ type Exec struct {
 	curProps   []string
 	loadSeen   map[string]bool
 	curClause        *Clause
+	goalMode         bool
 	usedContracts    map[string]bool
 	pendingWriteBack []writeBack
 }
